@@ -110,7 +110,9 @@ func (e *CrashEngine) Generate(prop, tier string, seed uint64, run int) *sim.Pla
 			add("fetch", 0)
 		}
 	}
+	foreign := false
 	if (target == "pull" || target == "merge") && r.Chance(0.2) {
+		foreign = true
 		// the merge that has to be refused: a foreign history published under the id of a local,
 		// never pushed bug with two commits
 		fill(add("newbug", 0))
@@ -122,7 +124,7 @@ func (e *CrashEngine) Generate(prop, tier string, seed uint64, run int) *sim.Pla
 	}
 	tgt := add(target, 0)
 	fill(tgt)
-	if target == "pull" && r.Chance(0.5) {
+	if target == "pull" && !foreign && r.Chance(0.5) { // (the one-call API stops at the first refused entity and reports an error: nothing to enumerate)
 		tgt.K = "pull-api" // the one-call API (identity.Pull + bug.Pull, RepoCache.Pull): fetch and merge in one interrupted action
 	}
 	if target == "edit" && r.Chance(0.5) {
@@ -284,7 +286,7 @@ func (e *CrashEngine) Execute(p *sim.Plan, keepLog bool) (res *sim.RunResult) {
 		// merges git-bug's own producer and consumer goroutines interleave their calls freely, so
 		// the identity of "the k-th mutation" is not a function of the plan (the oracle does not
 		// depend on it: every prefix of every interleaving must leave old-or-new states).
-		res.LogHash = model.Sha256Hex([]byte(setupHash + "|" + refHash + "|" + fmt.Sprint(res.Cases)))[:16]
+		res.LogHash = model.Sha256Hex([]byte(setupHash + "|" + refHash))[:16]
 	}()
 	// ---- reference run (fault-free)
 	if err := r.Open(); err != nil {
@@ -309,12 +311,21 @@ func (e *CrashEngine) Execute(p *sim.Plan, keepLog bool) (res *sim.RunResult) {
 				norm[i] = t
 			}
 		}
+		// as a SET: how often a clock file is rewritten depends on the order in which git-bug meets
+		// the values (Go map order; it writes only when the value is higher)
 		sort.Strings(norm)
-		refHash = model.Sha256Hex([]byte(strings.Join(norm, "\n")))
+		uniq := norm[:0]
+		for i, t := range norm {
+			if i == 0 || t != norm[i-1] {
+				uniq = append(uniq, t)
+			}
+		}
+		refHash = model.Sha256Hex([]byte(strings.Join(uniq, "\n")))
 	}
 	if errRef != nil {
 		// the target legitimately failed (nothing to edit...): nothing to enumerate
 		x.probe("target_failed_fault_free")
+		refHash = "" // what a failing target did before it gave up is not part of the run's identity
 		w.Log.Note("reference target error: %v", errRef)
 		w.Log.EndStep("reference", true)
 		return res
